@@ -31,4 +31,10 @@ for nch in (1, 2, 3):
     HARNESSES.append(H("chanmask.ch%d" % nch, "C12/chanmask.c", link=["common"], stubs=["psf_log_printf"], defines={"NCH": nch, "MF_CAP": 16}, unwind=20, checks="mem",
                        include_env=("log_stub", "memfile"), timeout=300, functions=["wavlike_gen_channel_mask", "channel_mask_bits[]"],
                        bounds="every channel map of %d channel(s), entries 0..SF_CHANNEL_MAP_MAX" % nch))
+# H1 (in-memory half): the handle's string table
+for ta, tb, tag in (("SF_STR_TITLE", "SF_STR_ARTIST", "two"), ("SF_STR_COMMENT", "SF_STR_COMMENT", "replace"), ("SF_STR_DATE", "SF_STR_GENRE", "two2")):
+    HARNESSES.append(H("strings.unit." + tag, "C12/strings_unit.c", link=["common"], stubs=["psf_log_printf"], defines={"TYPE_A": ta, "TYPE_B": tb, "MF_CAP": 16, "SNP_MAX": 40, "MEMCPY_MAX": 12},
+                       unwind=8, unwindset=["strlen.0:8", "strstr.0:8", "strstr.1:12", "psf_store_string.0:34", "psf_get_string.0:34", "snprintf.0:41", "snprintf.1:41", "memcpy.0:13", "strncmp.0:12", "main.0:8", "main.1:8", "main.2:8"],
+                       checks="mem", include_env=("log_stub", "memfile", "snprintf_model", "memcpy_model"), timeout=300,
+                       functions=["psf_set_string", "psf_store_string", "psf_get_string"], bounds="two stores of 1..4 symbolic characters, types %s then %s, before or after the first write" % (ta, tb)))
 META = {"assumptions": ["E-memfile"], "outside": ["strings, bext, cart, channel map round trips; AIFF/CAF/RF64 metadata (see DESIGN)"]}
